@@ -101,8 +101,8 @@ CHECKS["C06"] = dict(
 
 CHECKS["C01"] = dict(
     category="proof",
-    text="The real XML writer (every *XMLNode builder reached from XMLFileWriter.write_to_file) and the real XML reader (every *Factory reached from XMLFileReader.open) are executed symbolically back to back through the public CommonRoadFileWriter / CommonRoadFileReader on abstract XML trees: a lanelet network (lanelets with relations, adjacency, markings, types, users, stop line with references, traffic sign, traffic light with cycle, intersection), a static obstacle, dynamic obstacles with trajectory and with set-based prediction incl. signal states, phantom and environment obstacles, a planning problem with region / interval goal states, and the scenario meta data, all with symbolic coordinates and values, for decimal precisions 1, 4, 12 (thorough: 1..12). Postcondition: the read objects reproduce the written ones - ids, enums, flags, time steps, populated attributes identical, every real within 10^-d (unset initial-state attributes read back as 0) - discharged by z3 for all values. Known finding: the virtual flag of traffic signs.",
-    note="float_to_str enters through its contract (plain decimal text, monotone, within 10^-d, truncating outside exponent notation) - checked on real floats only by the bounded layer; XML serialise/parse is the identity on (tag, attributes, text, children) trees; str(float) denotes exactly the float; object collections have small fixed sizes; one representative value per enumeration in the symbolic run; orientation intervals shorter than 2pi-0.25; information the format does not store (first occurrences, colour list, centre line, lanelet assignment) is excluded",
+    text="The real XML writer (every *XMLNode builder reached from XMLFileWriter.write_to_file) and the real XML reader (every *Factory reached from XMLFileReader.open) are executed symbolically back to back through the public CommonRoadFileWriter / CommonRoadFileReader on abstract XML trees: a lanelet network (lanelets with relations, adjacency, markings, types, users, stop line with references, traffic sign, traffic light with cycle, intersection), a static obstacle, dynamic obstacles with trajectory and with set-based prediction incl. signal states, phantom and environment obstacles, a planning problem with region / interval goal states, and the scenario meta data, all with symbolic coordinates and values, for decimal precisions 1, 4, 12 (thorough: 1..12). Postcondition: the read objects reproduce the written ones - ids, enums, flags, time steps, populated attributes identical, every real within 10^-d (unset initial-state attributes read back as 0) - discharged by z3 for all values. Further families: one trajectory per state class (PM, KS, KST, ST, STD, MB, ExtendedPM) with every attribute symbolic, trajectory states with interval- and region-valued attributes, an obstacle with a shape group, and EXHAUSTIVE enumeration-member transport (every Tag, TimeOfDay / Weather / Underground member, every LaneletType, RoadUser, LineMarking incl. stop lines, every ObstacleType for static and dynamic obstacles, every TrafficLightState and direction, every traffic sign id of each of the 14 supported countries, through the country table of the reader). Known finding: the virtual flag of traffic signs.",
+    note="float_to_str enters through its contract (plain decimal text, monotone, within 10^-d, truncating outside exponent notation) - checked on real floats only by the bounded layer; XML serialise/parse is the identity on (tag, attributes, text, children) trees; str(float) denotes exactly the float; object collections have small fixed sizes; geometry is concrete in the enumeration-member contracts (symbolic in all others); orientation intervals shorter than 2pi-0.25; information the format does not store (first occurrences, colour list, centre line, lanelet assignment) is excluded",
     technique="deductive: AST symbolic execution of real writer and reader source on abstract XML trees, round-trip postcondition discharged by z3; float_to_str by contract",
     design_ref="5/C01",
 )
@@ -149,7 +149,7 @@ CHECKS["C13"] = dict(
 
 CHECKS["C02"] = dict(
     category="proof",
-    text="The real ProtobufFileWriter (every XxxMessage.create_message) and ProtobufFileReader (every XxxFactory.create_from_message, incl. StateFactory class matching) are executed symbolically back to back on message trees built from the REAL descriptors of the generated *_pb2 classes (type checks, 32-bit ranges, presence, oneof, required fields as in the pure-python protobuf implementation the repository runs on). Content groups as in C01 (lanelet network with stop line, sign incl. virtual flag and first occurrences, light incl. offset/direction/active, intersection; static / dynamic (trajectory with signal states incl. horn, set-based) / phantom / environment obstacles; planning problems with interval- and region-valued goal states) plus: every object built through its public constructor with default arguments, and one trajectory per state class (PM, KS, KST, ST, STD, MB, ExtendedPM). Postcondition: structural equality of everything, reals IDENTICAL (tolerance 0); all reals, ids and time steps symbolic.",
+    text="The real ProtobufFileWriter (every XxxMessage.create_message) and ProtobufFileReader (every XxxFactory.create_from_message, incl. StateFactory class matching) are executed symbolically back to back on message trees built from the REAL descriptors of the generated *_pb2 classes (type checks, 32-bit ranges, presence, oneof, required fields as in the pure-python protobuf implementation the repository runs on). Content groups as in C01 (lanelet network with stop line, sign incl. virtual flag and first occurrences, light incl. offset/direction/active, intersection; static / dynamic (trajectory with signal states incl. horn, set-based) / phantom / environment obstacles; planning problems with interval- and region-valued goal states) plus: every object built through its public constructor with default arguments (incl. id 0 neighbours and a cycle-less light switched on), one trajectory per state class (PM, KS, KST, ST, STD, MB, ExtendedPM), trajectory states with interval- and region-valued attributes, a shape-group obstacle, and EXHAUSTIVE transport of every enumeration member the .proto files define (tags, environment, lanelet types, users, markings, obstacle types, light states and directions, every sign id of the 13 countries with a proto enumeration). Postcondition: structural equality of everything, reals IDENTICAL (tolerance 0); all reals, ids and time steps symbolic.",
     note="the wire format is assumed: serialise/parse is the identity on (presence, values, order), doubles 64-bit (pbmodel, trusted; cross-checked natively against the real library by tools/native_all.py); preconditions: integers fit the format's 32-bit fields, enumeration members exist in the .proto (HEAVY_RAIN etc. do not), centre line = mean of the boundaries (the format stores only the boundaries), writer given author/affiliation/source/tags; a light without cycle reads back with an empty cycle (treated as the same content, both readers do this); structure bounds as in C01 (2-vertex boundaries, 2 trajectory states, 1-3 objects per kind). Known finding: KSTState trajectories cannot be written (no hitch_angle field in obstacle.proto).",
     technique="deductive: AST symbolic execution of the real protobuf writer and reader on descriptor-driven message trees, exact round-trip postcondition discharged by z3",
     design_ref="5/C02",
